@@ -126,7 +126,15 @@ func (x *Exec) loopHeader(st *State, fr *Frame, b *ssa.BasicBlock, prev *ssa.Bas
 		setPhis(f2, in)
 		evalInvs(st, f2, "preserve", false)
 		if fr.ct != nil {
-			env := x.frameEnv(fr) // body clauses see the iteration's own variable values
+			// body clauses see the loop variables as they were at the start of this iteration
+			f3 := fr.clone()
+			for i := 0; i < nphi; i++ {
+				phi := b.Instrs[i].(*ssa.Phi)
+				if phi.Comment != "" {
+					f3.env[phi.Comment] = envEntry{v: fr.regs[phi]}
+				}
+			}
+			env := x.frameEnv(f3)
 			for k, cl := range fr.ct.bodies[l.ordinal] {
 				x.specMode++
 				t := x.evalClause(st, env, cl)
@@ -286,7 +294,9 @@ func (x *Exec) havocLike(st *State, old Value, t types.Type, name string) Value 
 		x.symArrCtr++
 		cell := newCell(name, types.NewArray(o.elem, -1))
 		st.store[cell] = &SymArr{elem: o.elem, name: fmt.Sprintf("%s_h%d", sanitize(name), x.symArrCtr)}
-		return &SliceV{cell: cell, off: mkInt(0), len: ln, cap: cp, elem: o.elem, named: o.named}
+		nl := freshVar(name+"$isnil", SBool)
+		st.axiom(mkImplies(nl, mkAnd(mkEq(ln, mkInt(0)), mkEq(cp, mkInt(0)))))
+		return &SliceV{cell: cell, off: mkInt(0), len: ln, cap: cp, elem: o.elem, named: o.named, nilT: nl}
 	case *Ptr, *Func, *AbsObj, *Iface, *Opaque, *Str, *MapV:
 		return old
 	}
